@@ -269,7 +269,7 @@ func genChk(g *hx.Gen, r *hx.Rand) {
 			w.progs = append(w.progs, p)
 		}
 		if r.Chance(5) {
-			w.progs = append(w.progs, prog{kind: r.Pick2("X", "S"), sKey: 3})
+			w.progs = append(w.progs, prog{kind: []string{"X", "S"}[r.Intn(2)], sKey: 3})
 		}
 		if r.Chance(4) {
 			w.progs = nil
